@@ -233,12 +233,13 @@ func NewDialogueRunner(storer variable.Storer, rngSeed string, readers ...io.Rea
 	}
 
 	runner := &DialogueRunner{
-		dialogue:        dialogue,
-		statementsToRun: statementsToRun,
-		variableStorer:  storer,
-		commandStorer:   newCommandStorer(),
-		visitedNodes:    map[string]int{},
-		currentNode:     firstNode.Title(),
+		dialogue:         dialogue,
+		statementsToRun:  statementsToRun,
+		variableStorer:   storer,
+		commandStorer:    newCommandStorer(),
+		visitedNodes:     map[string]int{},
+		currentNode:      firstNode.Title(),
+		variableSnapshot: storer.GetValues(),
 	}
 
 	functionStorer := newFunctionStorer(rng)
@@ -430,6 +431,7 @@ func (dr *DialogueRunner) RestoreAt(snapshot *Snapshot) error {
 	if dr.visitedNodes == nil {
 		dr.visitedNodes = map[string]int{}
 	}
+	dr.variableSnapshot = maps.Clone(snapshot.Variables)
 	dr.variableStorer.Clear()
 	for variable, value := range snapshot.Variables {
 		if value.Boolean != nil {
